@@ -228,6 +228,20 @@ pub(crate) fn observe_msg(m: &UpdateMessage<&[u8]>, bound: usize) -> String {
     put("origin", grp(|| oo(m.origin(), |o| u8::from(*o).to_string())));
     put("aspath", grp(|| oo(m.aspath(), |p| format!("{}:{}", hex(p.clone().into_inner()), join(p.hops().take(100_000).map(|h| show_hop(&h)).collect())))));
     put("as4path", grp(|| oo(m.as4path(), |p| format!("{}:{}", hex(p.clone().into_inner()), join(p.hops().take(100_000).map(|h| show_hop(&h)).collect())))));
+    // the three iterators of a returned AsPath, each driven to its end on its own (not through a collected
+    // rendering): number of hops `hops()` yields, of segments `segments()` yields, of AS numbers the segments'
+    // `asns()` yield. Each is bounded by the value's octets (C02 `hops_bounded`): `+hang` beyond that.
+    put("pit", grp(|| {
+        fn count<I: Iterator>(it: I, bound: usize) -> String { let n = it.take(bound + 2).count(); if n > bound + 1 { format!("{}+hang", n) } else { n.to_string() } }
+        fn one<E>(r: Result<Option<routecore::bgp::aspath::AsPath<&[u8]>>, E>) -> String {
+            match r { Err(_) => "err".into(), Ok(None) => "-".into(), Ok(Some(p)) => {
+                let b = p.clone().into_inner().len();
+                let asns = { let mut n = 0usize; let mut hang = false;
+                    for (i, sg) in p.segments().enumerate() { if i > b + 1 { hang = true; break; } let k = sg.asns().take(b + 2).count(); if k > b + 1 { hang = true; break; } n += k; }
+                    if hang { format!("{}+hang", n) } else { n.to_string() } };
+                format!("{}.{}.{}", count(p.hops(), b), count(p.segments(), b), asns) } } }
+        format!("{}/{}", one(m.aspath()), one(m.as4path()))
+    }));
     put("cnh", grp(|| oo(m.conventional_next_hop(), show_nh)));
     put("mnh", grp(|| oo(m.mp_next_hop(), show_nh)));
     put("fnh", grp(|| {
@@ -592,6 +606,37 @@ impl Prop for C02 {
             while b.len() + 5 <= total { b.push(32); b.extend(rng.bytes(4)); }
             while b.len() < total { b.push(if i % 2 == 0 { 0 } else { 0x21 }); }
             out.push(line(if i == 4 { "2,1.1.b" } else { "4" }, &b));
+        }
+        // well-formed and near-well-formed UPDATEs of every size class up to 65535 octets, large for every structural
+        // reason (C01's gen_big: thousands of NLRI, community attributes of thousands of records, AS paths of hundreds
+        // of segments, MP attributes far above 4096 octets, one attribute that fills the message), at the exact
+        // boundaries 4096 / 4097 / 65535 and in between; each also with its large attribute's / section's / header's
+        // length field off by one, cut short, and with two random mutations
+        for (kind, target, exact) in crate::props::c01::big_plan(rng, scale) {
+            let (cfgv, c) = crate::props::c01::gen_big(rng, kind, target, exact);
+            let cfg = crate::props::c01::cfg_token(&cfgv);
+            let b = crate::props::c01::ref_encode(&cfgv, &c);
+            out.push(line(&cfg, &b));
+            // the length field of the largest attribute (the first one in the two-octet form whose length is the largest)
+            if let Some((_, ao, al)) = sections(&b) {
+                let (mut i, mut best): (usize, Option<(usize, usize)>) = (ao + 2, None);
+                while i + 3 <= ao + 2 + al {
+                    let ext = b[i] & 0x10 != 0;
+                    let (l, h) = if ext { if i + 4 > b.len() { break; } (u16::from_be_bytes([b[i + 2], b[i + 3]]) as usize, 4) } else { (b[i + 2] as usize, 3) };
+                    if ext && best.map(|(_, bl)| l > bl).unwrap_or(true) { best = Some((i + 2, l)); }
+                    i += h + l;
+                }
+                if let Some((off, l)) = best {
+                    for d in [1i64, -1] { let mut x = b.clone(); let v = (l as i64 + d).clamp(0, 65535) as u16; x[off..off + 2].copy_from_slice(&v.to_be_bytes()); out.push(line(&cfg, &x)); }
+                }
+                // the attribute section one octet longer / shorter than it is
+                for d in [1i64, -1] { let mut x = b.clone(); let v = (al as i64 + d).clamp(0, 65535) as u16; x[ao..ao + 2].copy_from_slice(&v.to_be_bytes()); out.push(line(&cfg, &x)); }
+            }
+            // the header length one more / one less than the octets; the last octet missing
+            for d in [1i64, -1] { let mut x = b.clone(); let v = (b.len() as i64 + d).clamp(0, 65535) as u16; x[16..18].copy_from_slice(&v.to_be_bytes()); out.push(line(&cfg, &x)); }
+            { let mut x = b.clone(); x.pop(); out.push(line(&cfg, &x)); }
+            let other = pool[rng.usize(0, pool.len() - 1)].1.clone();
+            for _ in 0..2 { let x = mutate(rng, b.clone(), &other); out.push(line(&cfg, &x)); }
         }
         // input-driven nesting: ATTR_SETs inside ATTR_SETs, all lengths consistent (depth 508 is the most that
         // fits into 4096 octets, 8000 into the length field), alone and after ORIGIN / AS_PATH / NEXT_HOP;
